@@ -106,7 +106,7 @@ func (p seqProp) Shrink(x any) []any {
 func init() {
 	Register(seqProp{id: "C01",
 		rule: "every 6th case runs on 2-3 nearly full simulated disks (writes are retried on another root or fail with ErrNoFreeSpace and are then not applied); cases: seeded sequential histories (10-40 steps) of Set/SetReader (5 reader shapes)/Create+Write*+Close/Get/GetReader/GetKeys/Delete over 2-5 keys (ASCII, multi-byte, long, with slash), contents 0..200 KiB incl. 2047-2049, 32767-32769, 65537; empty-key Set and never-written Get; collector (direct and timer), background windows and drains at boundaries; distinct = hash(ops, switch trace); non-trivial = some key is written at least twice (overwrite or delete/re-create)",
-		runs: [2]int{6000, 250000},
+		runs: [2]int{15000, 250000},
 		gen: func(r *simrt.Rand, idx int, tier string) SeqCase {
 			c := genSeqCase(r, seqProfile{prop: "C01", steps: [2]int{10, 40}, keys: [2]int{2, 5}, ctlWeight: 12, emptyKey: true, big: true, readback: "auto", deleteHeavy: r.Intn(2) == 0})
 			if idx%6 == 5 {
@@ -122,7 +122,7 @@ func init() {
 		}})
 	Register(seqProp{id: "C02",
 		rule: "cases: one driver interleaves up to 6 open transactions (all four levels) and autocommit calls: Begin/Set/Delete/Get/GetKeys/Commit/Rollback, 2-4 keys, 15-60 steps, collector/timer/background windows at boundaries; every 5th case is a deep chain (1-2 keys, 150-1500 versions, snapshot transactions begun at many points, collector in between); after every data step every open transaction and the autocommit caller read every key and GetKeys; distinct = hash(ops, switch trace); non-trivial = at least two transactions and two writes",
-		runs: [2]int{4000, 160000},
+		runs: [2]int{5000, 160000},
 		gen: func(r *simrt.Rand, idx int, tier string) SeqCase {
 			if idx%5 == 4 {
 				n := 150 + r.Intn(350)
@@ -135,7 +135,7 @@ func init() {
 		}})
 	Register(seqProp{id: "C03",
 		rule: "cases: as C02 but biased to overlapping write sets (2/3 of writes hit one key), several writes per key inside a transaction, deletes, autocommit writes between Begin and Commit; every 4th case injects a Badger update failure into one commit or autocommit write; checked: error class of every Commit/Rollback against the model (serialization error iff a written key has a newer committed version) and a read-back of all keys by all actors after every step; non-trivial = at least one transaction and two writes",
-		runs: [2]int{4000, 160000},
+		runs: [2]int{10000, 160000},
 		gen: func(r *simrt.Rand, idx int, tier string) SeqCase {
 			c := genSeqCase(r, seqProfile{prop: "C03", steps: [2]int{15, 50}, keys: [2]int{2, 3}, maxTx: 5, txWeight: 75, ctlWeight: 6, readback: "all", overlap: true, levels: []int{0, 1, 2, 2, 3, 3}})
 			if idx%4 == 3 {
@@ -173,7 +173,7 @@ func init() {
 		}})
 	Register(propC14{seqProp{id: "C14",
 		rule: "three quarters of the cases: fault-free sequential histories of autocommit and transactional writes, deletes, commits, failed commits and rollbacks (15-60 steps, contents up to 200 KiB), optional reopen with jobs still queued; then all transactions are ended, the world runs to exact quiescence, one collection pass, quiescence; one quarter: small concurrent programs (the generators of C06 and C07) under seeded schedules, then the same end game; oracle: the regular files under all roots are in bijection with the keys GetKeys returns and byte-equal to their contents; non-trivial = some key written at least twice (sequential) / client operations overlapped (concurrent)",
-		runs: [2]int{4000, 160000},
+		runs: [2]int{10000, 160000},
 		gen: func(r *simrt.Rand, idx int, tier string) SeqCase {
 			rp := 0
 			if idx%3 == 0 {
